@@ -69,6 +69,8 @@ func RunCLIArgs(w *simfs.World, flagArgs []string, stdin string) (CLIResult, err
 		if err := os.Symlink(rel, full); err != nil {
 			return CLIResult{}, err
 		}
+		// the link itself is old (made when the directory was set up); what it points to carries the file's time
+		exec.Command("touch", "-h", "-d", simfs.Base.Format(time.RFC3339), full).Run()
 	}
 	args := append([]string{"sign"}, flagArgs...)
 	dirArg, cwd := root, ""
